@@ -11,7 +11,7 @@ Inductive c08_case :=
    (same shape, same descriptor, same static type at every node; types compared as kind sets) *)
 Definition c08_tie_tc (c : c08_case) : bool :=
   match c with
-  | C8 env (Some le) tc_obs _ => tcres_eqb (tc function_table env le) tc_obs
+  | C8 env (Some le) tc_obs _ => tcres_eqb (tc type_inter_aliasing function_table env le) tc_obs
   | C8 _ None _ _ => true
   end.
 
@@ -30,7 +30,7 @@ Definition c08_tie_pwt (c : c08_case) : bool :=
   | _ => true
   end.
 
-(* oracle: on a conforming row, the observed value is admitted by the static type the typechecker reported *)
+(* oracle: on a conforming row, the observed value is allowed by the static type the typechecker reported *)
 Definition c08_spec_type (c : c08_case) : bool :=
   match c with
   | C8 env _ (TcOk pe) runs =>
